@@ -5,7 +5,7 @@ from harness import xmlmodel
 from harness.common import tree
 from pyxform.utils import escape_text_for_xml, node
 
-N_SHAPES = 10
+N_SHAPES = 11
 
 
 def build(shape: int, t1: str, t2: str):
@@ -35,6 +35,9 @@ def build(shape: int, t1: str, t2: str):
     if shape == 9:  # two outputs with text between
         s = '<output value="/d/q"/>' + escape_text_for_xml(t1) + '<output value="/d/r"/>' + escape_text_for_xml(t2)
         return node("hint", s, toParseString=True)
+    if shape == 10:  # two adjacent outputs followed by text, then an output
+        s = '<output value="/d/q"/><output value="/d/r"/>' + escape_text_for_xml(t1) + '<output value="/d/s"/>' + escape_text_for_xml(t2)
+        return node("label", s, toParseString=True)
     raise ValueError(shape)
 
 
